@@ -12,6 +12,8 @@ concrete file-level loader model of C05 (Model/DexFile.lean: `step`, `loadEntrie
  * the frame property of every modelled item parser against the dependency table of the source
    (`step_frame`, `deps_adequate`, sharpness `reads_all_needed`, equivalence
    `frame_iff_deps_adequate`, refutations for mutated tables `deps_mutants_refuted`),
+ * `deps_final_when_read`: when an item parser runs, the tables of its declared dependencies are
+   final (frame + adequacy + sorted load order),
  * permutation invariance of `parseDex` at file level, errors included (`parse_perm_invariant`),
    under the decidable hypothesis that no item decodes differently after the map list was
    rewritten — which follows when no item is read from the bytes of the map entries
@@ -31,6 +33,7 @@ import AgVerif.Gen.MapDeps
 import AgVerif.Proof.DexDeps
 import AgVerif.Proof.DexPerm
 import AgVerif.Proof.DexGeom
+import AgVerif.Proof.DexFinal
 namespace AgVerif.C07
 open AgVerif.LoadOrder AgVerif.Gen.MapDeps
 
@@ -211,12 +214,15 @@ theorem frame_iff_deps_adequate (d : Deps) :
     (∀ file e cm₁ cm₂, agreeOn (closure d e.type) cm₁ cm₂ → FrameOK file e cm₁ cm₂) ↔ adequate d :=
   frame_iff_adequate d
 
-/-- refutation for mutated tables: without CLASS_DEF → CLASS_DATA (or STRING_ID → STRING_DATA,
-    TYPE_ID → STRING_ID, METHOD_ID → PROTO_ID, PROTO_ID → TYPE_LIST) the frame property is false … -/
+/-- refutation for mutated tables (`refDeps` = a fixed copy of today's table, adequate): without
+    CLASS_DEF → CLASS_DATA (or STRING_ID → STRING_DATA, TYPE_ID → STRING_ID, METHOD_ID → PROTO_ID,
+    PROTO_ID → TYPE_LIST) the frame property is false … -/
 theorem deps_mutants_refuted :
+    adequate refDeps ∧
     ∀ p ∈ [(0x0006, 0x2000), (0x0001, 0x2002), (0x0002, 0x0001), (0x0005, 0x0003), (0x0003, 0x1001)],
-    ¬ ∀ file e cm₁ cm₂, agreeOn (closure (dropDep deps p.1 p.2) e.type) cm₁ cm₂ → FrameOK file e cm₁ cm₂ := by
+    ¬ ∀ file e cm₁ cm₂, agreeOn (closure (dropDep refDeps p.1 p.2) e.type) cm₁ cm₂ → FrameOK file e cm₁ cm₂ := by
   have h := deps_mutants_inadequate
+  refine ⟨refDeps_adequate, ?_⟩
   intro p hp
   rw [frame_iff_adequate]
   simp only [List.mem_cons, List.not_mem_nil, or_false] at hp
@@ -230,8 +236,22 @@ theorem deps_mutants_refuted :
 /-- … whereas (CLASS_DEF, TYPE_ID) is implied by CLASS_DEF → TYPE_LIST → TYPE_ID, and the direct
     entries alone (without transitivity) do not cover the reads. -/
 theorem deps_transitivity_needed :
-    adequate (dropDep deps 0x0006 0x0002) ∧ ¬ (∀ T ∈ modelled, ∀ D ∈ reads T, D ∈ direct deps T) :=
+    adequate (dropDep refDeps 0x0006 0x0002) ∧ ¬ (∀ T ∈ modelled, ∀ D ∈ reads T, D ∈ direct refDeps T) :=
   ⟨deps_redundant_pair, deps_direct_not_enough⟩
+
+/-- why the load order is the right one for the concrete loader: at the moment MapList.__init__ runs
+    the item parser of an entry `e` (state `s`, reached after the entries `pre` sorted before it),
+    the tables of all transitively declared dependencies of `e.type` are already what they are in
+    the final state `fin` — no later item parser writes them — and therefore (frame) parsing the
+    items of `e` against the final state would write the same table: every item is resolved
+    against complete tables.  For every file, every map list (duplicate types allowed) and every
+    initial state. -/
+theorem deps_final_when_read (file : Bytes) (es pre post : List MapEntry) (e : MapEntry) (init s fin : CM)
+    (hord : orderEntries loadOrder es = some (pre ++ e :: post))
+    (hpre : foldSteps (step file) init pre = .ok s)
+    (hfin : foldSteps (step file) init (pre ++ e :: post) = .ok fin) :
+    agreeOn (closure deps e.type) s fin ∧ FrameOK file e s fin :=
+  deps_final file es pre post e init s fin hord hpre hfin
 
 /-- (2) C07 for the concrete loader model, file level.  `file` is any byte list whose header field
     map_off (at 0x34) points behind itself to a map list that reads as `es` with pairwise distinct
@@ -307,6 +327,13 @@ example : (∀ b ∈ exampleFile, b < 256) ∧ u32 (exampleFile.drop 0x34) = som
     parseDex exampleFile = .ok ⟨[[0x41]], []⟩ := by decide +kernel
 example : (∀ e ∈ exampleFileMap, clearOf exampleFile (0x44 + 4) (0x44 + 4 + 12 * exampleFileMap.length) e) ∧
     ¬ clearOf overlapFile (0x38 + 4) (0x38 + 4 + 12 * 2) ⟨0x2002, 1, 0x3C⟩ := by decide +kernel
+example : orderEntries loadOrder [⟨2, 1, 0x40⟩, ⟨1, 1, 0x3C⟩, ⟨0x2002, 1, 0x38⟩] =
+      some ([⟨0x2002, 1, 0x38⟩, ⟨1, 1, 0x3C⟩] ++ ⟨2, 1, 0x40⟩ :: []) ∧
+    foldSteps (step exampleFile) {} [⟨0x2002, 1, 0x38⟩, ⟨1, 1, 0x3C⟩] =
+      .ok { strData := some [(0x38, [0x41])], stringIds := some [0x38] } ∧
+    foldSteps (step exampleFile) {} ([⟨0x2002, 1, 0x38⟩, ⟨1, 1, 0x3C⟩] ++ ⟨2, 1, 0x40⟩ :: []) =
+      .ok { strData := some [(0x38, [0x41])], stringIds := some [0x38], typeIds := some [0] } := by
+  decide +kernel
 example : agreeOn (closure deps 0x0005) witCM (clear 0x2000 witCM) ∧ witCM ≠ clear 0x2000 witCM := by
   decide +kernel
 
